@@ -165,9 +165,11 @@ def java_annotation_legs(run, spec, stage, text, inv, found):
 # ------------------------------------------------------------------ model legs
 def model_requests(L, e):
     m = MODELS[L]
-    return [{"op": m["doc_op"], "program": e, "package": "src.pkg"},
-            {"op": m["inv_op"], "program": e},
-            {"op": m["sem_op"], "program": e}]
+    rq = [{"op": m["doc_op"], "program": e, "package": "src.pkg"},
+          {"op": m["inv_op"], "program": e}]
+    if "sem_op" in m:           # K4 only for a language whose model has the IR-side `semProgram`
+        rq.append({"op": m["sem_op"], "program": e})
+    return rq
 
 
 def model_judge(run, L, ans, text, inv, lit):
@@ -175,7 +177,8 @@ def model_judge(run, L, ans, text, inv, lit):
     for a in ans:
         if "error" in a:
             raise common.HarnessError("driver error (%s): %s" % (L, a["error"]))
-    doc, linv, sem = ans[0]["r"], ans[1]["r"], ans[2]["r"]
+    doc, linv = ans[0]["r"], ans[1]["r"]
+    sem = ans[2]["r"] if len(ans) > 2 else None
     import c11_plugin
     flat = "".join(p[2] for p in doc)
     if flat != text:
@@ -188,15 +191,18 @@ def model_judge(run, L, ans, text, inv, lit):
     if dtags != want:
         k = next((i for i, (x, y) in enumerate(zip(dtags, want)) if x != y), min(len(dtags), len(want)))
         out.append(("K3 doc-decl-tags=inventory", {"index": k, "doc": dtags[k:k + 2], "python": want[k:k + 2]}))
-    run.tally("condOK", str(sem["condok"]))
     nonlay = [p for p in doc if p[0] != "other"]
-    if sem["condok"] and sem["pieces"] != nonlay:
-        k = next((i for i, (x, y) in enumerate(zip(sem["pieces"], nonlay)) if x != y), min(len(nonlay), len(sem["pieces"])))
-        out.append(("K4 sem=non-layout-pieces", {"index": k, "sem": sem["pieces"][k:k + 2], "doc": nonlay[k:k + 2]}))
-    if not sem["condok"] and [p[:2] for p in sem["pieces"]] != [p[:2] for p in nonlay]:
-        out.append(("K4 sem-tags=non-layout-tags", {}))
+    if sem is not None:
+        run.tally("condOK", str(sem["condok"]))
+        if sem["condok"] and sem["pieces"] != nonlay:
+            k = next((i for i, (x, y) in enumerate(zip(sem["pieces"], nonlay)) if x != y), min(len(nonlay), len(sem["pieces"])))
+            out.append(("K4 sem=non-layout-pieces", {"index": k, "sem": sem["pieces"][k:k + 2], "doc": nonlay[k:k + 2]}))
+        if not sem["condok"] and [p[:2] for p in sem["pieces"]] != [p[:2] for p in nonlay]:
+            out.append(("K4 sem-tags=non-layout-tags", {}))
     dl = [[("op" if p[0] == "op" else "lit"), p[2]] for p in doc if p[0] in ("lit", "op")]
-    wl = [[("op" if k == "op" else "lit"), t] for k, t in lit]
+    is_text = MODELS[L].get("is_op_text")    # Scala prints both `is` and `!is` as `.isInstanceOf[…]`
+    wl = [[("op" if k == "op" else "lit"), (is_text if is_text and k == "op" and t in ("is", "!is") else t)]
+          for k, t in lit]
     if dl != wl:
         k = next((i for i, (x, y) in enumerate(zip(dl, wl)) if x != y), min(len(dl), len(wl)))
         out.append(("K5 doc-literals-ops=program's", {"index": k, "doc": dl[k:k + 3], "program": wl[k:k + 3]}))
